@@ -287,7 +287,11 @@ def write_evidence(prop, tier, seed, results, proved, bounded, known, violations
             'samples': samples,
         },
         'assumptions': assumed + ['Python integers are mathematical; symbolic integer widths are derived from exact intervals, never chosen',
-                                  'termination is not proved (partial correctness)'],
+                                  'termination is not proved (partial correctness)']
+                       + (['class I obligations prove ONE iteration of a loop of the real function from an arbitrary state of its locals; the induction over the number of iterations (the loop rule) that turns them into a statement about every input length is applied on paper, not mechanised'] if any(r['cls'] == 'I' for r in results) else [])
+                       + (['abstract messages (arbitrary length and content): code that is accepted with a message object refusing every inspection is parametric in the message; the hash of (known prefix || message) is an uninterpreted function of the prefix bytes and the message token'] if prop in ('C10', 'C13') else [])
+                       + (['frame obligations see state reached through self and its sub-objects only; module-level and class-level state is covered by the bounded history enumeration, not by the lemmas; changes of the SHAPE of an attribute (list length, Bits size) are not havocked'] if prop == 'C10' else [])
+                       + (['obligations marked as covering the whole range the property states (C16 rings 0..64 and dimensions 0..20; C20 list lengths 0..7) are complete for that stated range only'] if prop in ('C16', 'C20') else []),
         'wall_s': round(wall, 2),
         'violations': len(violations),
     }
